@@ -19,10 +19,8 @@ import (
 	"go/token"
 	"go/types"
 	"math/big"
-	"os"
 	"regexp"
 	"runtime/debug"
-	"runtime/pprof"
 	"strconv"
 	"strings"
 	"sync"
@@ -747,49 +745,20 @@ func spaces(tier string) []kit.Space {
 }
 
 func main() {
-	gcp, _ := strconv.Atoi(os.Getenv("C02GC"))
-	if gcp == 0 {
-		gcp = 400
-	}
 	// The cases allocate many short-lived small objects; with the default
-	// 4 MiB heap target the collector runs continuously. Collect only when the
-	// heap reaches 1 GiB.
-	debug.SetGCPercent(gcp)
-	if f := os.Getenv("C02PROF"); f != "" { // DEVONLY
-		fh, _ := os.Create(f)
-		pprof.StartCPUProfile(fh)
-		sps := spaces("quick")
-		for _, sp := range sps {
-			if sp.Name[:2] == "03" {
-				for i := uint64(0); i < 6000; i++ {
-					sp.Eval(i * 7)
-				}
-			}
-		}
-		pprof.StopCPUProfile()
-		return
-	}
+	// heap target the collector runs almost continuously (measured: 2x slower).
+	debug.SetGCPercent(400)
 	kit.Main(&kit.Check{
 		ID:    "C02",
 		Level: "model_checking",
-		Rule:  fmt.Sprintf("every constant expression of the listed shapes over %d literals (0, ±1, 2^k-1/2^k/2^k+1 for k in 7,8,15,16,31,32,63,64, 2^100, 511, 512, 2^511, floats on and off the float64 fast path, beyond float32/float64, rune, strings, bools, imaginary), %d binary and %d unary operators and conversions to the %d basic types: leaf, unary, binary (untyped, T op T, T op untyped, untyped op T), shifts with independently typed operands, unary-of-binary, binary-of-unary, and both depth-2 binary shapes over a 10 (quick) / 16 (thorough) literal subset, thorough also with all three leaves converted to each basic type. Each index is a distinct expression text. A case is non-trivial when every operand of the outermost operator is itself a valid constant expression for go/types, so the verdict depends on the operator and not on a broken leaf", len(literals), len(binOps), len(unOps), len(basicTypes)),
+		Rule:  fmt.Sprintf("every constant expression of the listed shapes over %d literals (0, ±1, 2^k-1/2^k/2^k+1 for k in 7,8,15,16,31,32,63,64, 2^100, 511, 512, 2^511, floats on and off the float64 fast path, beyond float32/float64, rune, strings, bools, imaginary), %d binary and %d unary operators and conversions to the %d basic types: leaf, unary, binary (untyped, T op T, T op untyped, untyped op T), shifts with independently typed operands, unary-of-binary, binary-of-unary, and both depth-2 binary shapes over an 8 (quick) / 16 (thorough) literal subset, thorough also with all three leaves converted to each basic type; in the quick tier the typed binary and shift spaces draw their literals from a 22-literal core subset and the unary-of-binary / binary-of-unary spaces use the unary operators - ^ / - only. Each index is a distinct expression text. A case is non-trivial when every operand of the outermost operator is itself a valid constant expression for go/types, so the verdict depends on the operator and not on a broken leaf", len(literals), len(binOps), len(unOps), len(basicTypes)),
 		Assumptions: []string{
 			"reference = go/types + go/constant of the toolchain that builds the check (GoVersion go1.25, 64-bit int)",
 			"values are compared after conversion to each basic type (floats after rounding to the type) and, for integers, dyadic rationals, strings and booleans, exactly against a literal; non-dyadic untyped float values are compared only through float32/float64/complex rounding",
 			"expressions deeper than 2 operators are not explored",
+			"two documented quirks of the reference are skipped, not judged: go/constant's MinInt64 / -1 (int64 fast path wraps; gc prints the same wrong value) and go/types accepting a typed constant of non-integer type as shift count (go.dev/issue/47410)",
+			"a compound expression whose operand already fails on its own is reported under the operand's failure key",
 		},
-		Spaces: func(tier string) []kit.Space {
-			sps := spaces(tier)
-			if f := os.Getenv("C02DEV"); f != "" { // DEVONLY
-				var out []kit.Space
-				for _, sp := range sps {
-					if strings.Contains(","+f+",", ","+sp.Name[:2]+",") {
-						out = append(out, sp)
-					}
-				}
-				return out
-			}
-			return sps
-		},
+		Spaces: spaces,
 	})
 }
